@@ -80,6 +80,11 @@ func dirHashes(dir string) map[string]string {
 		if en.Name() == "schema.json" {
 			continue
 		}
+		// the temporary file of a schema commit in flight (live handle with a running flusher: it
+		// may commit once more right after an explicit flush) is not an object file
+		if en.Name() == ".schema.json.tmp" {
+			continue
+		}
 		b, _ := os.ReadFile(filepath.Join(dir, en.Name()))
 		out[en.Name()] = fmt.Sprintf("%x", sha256.Sum256(b))
 	}
